@@ -58,6 +58,11 @@ def run(module, cfg=None, tag=None, require_emit=True, retries=1, **kw):
             if "timed out" in str(e) or "SANY" in str(e) or "Parsing or semantic" in str(e) or "violation of" in str(e):
                 break
             sys.stderr.write("tlc: attempt %d failed: %s\n" % (attempt + 1, str(e)[:400]))
+            try:
+                with open(os.path.join(BUILD, "tlc-failures.log"), "a") as f:
+                    f.write("==== %s attempt %d\n%s\n" % (time.ctime(), attempt + 1, e))
+            except OSError:
+                pass
     raise last
 
 
